@@ -127,7 +127,11 @@ def mul(a, b):
                 if bool(y.inf): return float('nan')
                 return 0
             raise Unsupported('negative * ext')
-    raise Unsupported('ext * ext')
+    # both possibly infinite: inf * x needs x > 0 (or x infinite too)
+    (fa, ia), (fb, ib) = parts(a), parts(b)
+    bad = ir.lor(ir.land(ia, ir.lnot(ib), ir.le(fb, 0)), ir.land(ib, ir.lnot(ia), ir.le(fa, 0)))
+    if bool(bad): raise Unsupported('inf * non-positive value')
+    return mkext(ir.mul(fa, fb), ir.lor(ia, ib))
 
 def _nonzero_here(b):
     """decide (forking if necessary) whether symbolic divisor b is non-zero on this path"""
@@ -388,6 +392,7 @@ class Sym(T):
     def __bool__(s): return E().branch(s)
     def __index__(s):
         if s.sort == 'B': return int(E().branch(s))
+        if s.sort == 'R': raise TypeError("'numpy.float64' object cannot be interpreted as an integer")
         return E().concretize(s)
     def __int__(s):
         if s.sort == 'B': return int(E().branch(s))
